@@ -62,6 +62,7 @@ class Component:
     trace_extra: str = ""                      # extra TLA+ clause definitions for the trace spec
     trace_extra_names: list = field(default_factory=list)
     post_cycle: Callable | None = None         # (cfg, line, compsim) -> None  (add fields to the line)
+    shadow: Callable | None = None             # cfg -> exclusive methods that get a second (shadow) caller
 
 
 # ---------------------------------------------------------------------------------------
@@ -173,13 +174,16 @@ def replay_walk(comp: Component, cfg, walk):
     """Drive the real circuit along `walk`; returns list of mismatches."""
     from .drive import CompSim
     bcfg = comp.impl_cfg(cfg) if comp.impl_cfg else cfg
-    cs = CompSim(comp.build, bcfg, scheduler=comp.scheduler, dm_setup=comp.dm_setup)
+    shadows = list(comp.shadow(bcfg)) if comp.shadow else []
+    cs = CompSim(comp.build, bcfg, scheduler=comp.scheduler, dm_setup=comp.dm_setup, shadows=shadows)
     sched = []
     for e in walk:
         calls = _norm_calls(e["lab"]["calls"])
         step = dict(calls)
         for m in e["lab"]["nc"]:
             step[m] = None
+        if shadows:
+            step["_shadow"] = [m for m in shadows if m in step]
         sched.append(step)
     lines = cs.run(sched)
     bad = []
@@ -197,6 +201,8 @@ def replay_walk(comp: Component, cfg, walk):
                 probs.append(f"{m}.callable=1 expected 0")
             if m in calls and line[m]["out"] != res[m]:
                 probs.append(f"{m}.out={line[m]['out']} expected {res[m]}")
+            if line[m].get("both"):
+                probs.append(f"{m} executed for two callers in one cycle")
         if probs:
             bad.append({"step": i, "problems": probs, "from": e["from"], "lab": e["lab"], "line": line})
             break
@@ -250,6 +256,8 @@ def random_schedule(comp: Component, cfg, rng: random.Random, cycles: int):
     methods = comp.methods(cfg)
     tracker = comp.tracker(cfg) if comp.tracker else None
     state = {"phase_end": 0, "p": {}}
+    shadows = list(comp.shadow(cfg)) if comp.shadow else []
+    srng = random.Random(rng.random())   # own stream: shadow requests do not disturb the schedule
 
     def sched(i, prev):
         if i >= cycles:
@@ -275,6 +283,8 @@ def random_schedule(comp: Component, cfg, rng: random.Random, cycles: int):
         step["_args"] = {k: v for k, v in args.items() if v is not None}
         if tracker is not None and hasattr(tracker, "fix"):
             step = tracker.fix(step, rng)
+        if shadows:
+            step["_shadow"] = [m for m in shadows if m in step and srng.random() < 0.4]
         return step
 
     return sched
@@ -283,7 +293,8 @@ def random_schedule(comp: Component, cfg, rng: random.Random, cycles: int):
 def record_trace(comp: Component, cfg, seed: int, cycles: int):
     from .drive import CompSim
     rng = random.Random(seed)
-    cs = CompSim(comp.build, cfg, scheduler=comp.scheduler, dm_setup=comp.dm_setup)
+    cs = CompSim(comp.build, cfg, scheduler=comp.scheduler, dm_setup=comp.dm_setup,
+                 shadows=list(comp.shadow(cfg)) if comp.shadow else [])
     lines = cs.run(random_schedule(comp, cfg, rng, cycles))
     if comp.post_cycle:
         for ln in lines:
@@ -389,6 +400,9 @@ def _sched_of(line):
         else:
             args[m] = v["arg"]
     step["_args"] = args
+    sh = [m for m, v in line.items() if isinstance(v, dict) and v.get("sh")]
+    if sh:
+        step["_shadow"] = sh
     return step
 
 
@@ -468,7 +482,8 @@ def replay_file(comp: Component, rep: Report, path: str):
     d = json.load(open(path))
     cfg = d["cfg"]
     bcfg = comp.impl_cfg(cfg) if (comp.impl_cfg and "EdgeReplay" in d.get("clauses", [])) else cfg
-    cs = CompSim(comp.build, bcfg, scheduler=comp.scheduler, dm_setup=comp.dm_setup)
+    cs = CompSim(comp.build, bcfg, scheduler=comp.scheduler, dm_setup=comp.dm_setup,
+                 shadows=list(comp.shadow(bcfg)) if comp.shadow else [])
     lines = cs.run(d["schedule"])
     if comp.post_cycle:
         for ln in lines:
